@@ -313,6 +313,27 @@ def exec_and_validate(domain, scripts, workdir, module, cfg, events_per_chunk=15
                 pass
             idx = next((i for i, s in enumerate(todo) if s.get("tid") == cur), None)
             if idx is None:
+                # the side file is unusable (the process was brought down while it was being replaced):
+                # the script that was running is the one after the last script that left a trace
+                seen = None
+                try:
+                    with open(tpp) as f:
+                        for line in f:
+                            if not line.endswith("\n"):
+                                continue
+                            try:
+                                e = json.loads(line)
+                            except Exception:
+                                continue
+                            t = e.get("cfg", {}).get("tid") if e.get("op") == "Reset" else e.get("tid")
+                            if t is not None:
+                                seen = t
+                except OSError:
+                    pass
+                k = next((i for i, s in enumerate(todo) if s.get("tid") == seen), None)
+                idx = 0 if k is None else min(k + 1, len(todo) - 1)
+                cur = todo[idx].get("tid") if todo else None
+            if idx is None or cur is None:
                 raise ToolError("harness failed on %s (exit %d):\n%s" % (sp, p.returncode, p.stdout[-2000:]))
             crashes.append({"tid": cur, "line": 0, "p": "*",
                             "m": ("the implementation did not terminate while executing this script" if hung
